@@ -2,12 +2,15 @@
   `prefix_errors` (Model/PrefixErrors.lean) against the tree-level matcher `STree.upTo` that `flatten_up_to` refines:
   for every prefix tree without registered custom nodes — leaves, None, tuple, list, deque, the three dict kinds
   (keys sorted or in insertion order), unregistered namedtuple / struct-sequence classes — and *every* full tree,
-  `prefix_errors` reports nothing exactly when the match succeeds.  Structural induction over the prefix tree; the
+  `prefix_errors` reports nothing exactly when the match succeeds (`pe_agree`); with a consistent registry and
+  well-behaved flatten functions the same holds for every prefix tree, registered custom nodes included (`pe_full`,
+  `pe_custom`, `hty_any`: same exact type ⇔ same registration).  Structural induction over the prefix tree; the
   dict case goes through "for every item of the prefix the key is found and the sub-trees agree", which both sides
   compute in the same (sorted or insertion) order.
 -/
 import OptreeModel.Model.PrefixErrors
 import OptreeModel.Lemmas.UpToPrefix
+import OptreeModel.Lemmas.Roundtrip
 namespace Optree
 
 theorem seqErrs_nil : ∀ rs : List (Except Err PErrs), seqErrs rs = .ok [] ↔ ∀ r ∈ rs, r = .ok []
@@ -357,6 +360,468 @@ theorem pe_agree (cfg : Cfg) (s : Bool) (hp : cfg.pred = Option.none) :
         first
           | exact hd _
           | (have h0 := hd ‹_›
+             simp only [dictOrder, Bool.not_true, Bool.false_and, Bool.false_eq_true, if_false] at h0 ⊢
+             exact h0)
+termination_by p => sizeOf p
+decreasing_by
+  all_goals simp_wf
+  all_goals first
+    | (have := List.sizeOf_lt_of_mem hx; omega)
+    | (have h1 := List.sizeOf_lt_of_mem hq
+       have h2 : sizeOf q.2 < sizeOf q := by cases q; simp; omega
+       omega)
+
+
+mutual
+/-- every registered-class instance in the tree has a well-behaved flatten function -/
+def PyObj.tame : PyObj → Bool
+  | .user _ _ q xs => q == .ok && PyObj.tameList xs
+  | .tuple xs | .list xs | .deque _ xs | .ntuple _ xs | .sseq _ xs => PyObj.tameList xs
+  | .dict kvs | .odict kvs | .ddict _ kvs => PyObj.tameKVs kvs
+  | _ => true
+def PyObj.tameList : List PyObj → Bool
+  | [] => true
+  | x :: xs => x.tame && PyObj.tameList xs
+def PyObj.tameKVs : List (Key × PyObj) → Bool
+  | [] => true
+  | (_, x) :: xs => x.tame && PyObj.tameKVs xs
+end
+
+theorem tame_mem : ∀ (xs : List PyObj), PyObj.tameList xs = true → ∀ x ∈ xs, x.tame = true
+  | [], _, x, hx => by simp at hx
+  | y :: ys, h, x, hx => by
+      simp only [PyObj.tameList, Bool.and_eq_true] at h
+      simp only [List.mem_cons] at hx
+      rcases hx with hx | hx
+      · subst hx; exact h.1
+      · exact tame_mem ys h.2 x hx
+
+theorem tame_memKVs : ∀ (kvs : List (Key × PyObj)), PyObj.tameKVs kvs = true → ∀ q ∈ kvs, q.2.tame = true
+  | [], _, q, hq => by simp at hq
+  | (k, y) :: ys, h, q, hq => by
+      simp only [PyObj.tameKVs, Bool.and_eq_true] at h
+      simp only [List.mem_cons] at hq
+      rcases hq with hq | hq
+      · subst hq; exact h.1
+      · exact tame_memKVs ys h.2 q hq
+
+theorem tame_lookup : ∀ (kvs : List (Key × PyObj)), PyObj.tameKVs kvs = true → ∀ k y, lookupKey k kvs = some y →
+    y.tame = true
+  | [], _, k, y, h => by simp [lookupKey] at h
+  | (k', y') :: rest, ht, k, y, h => by
+      simp only [PyObj.tameKVs, Bool.and_eq_true] at ht
+      simp only [lookupKey] at h
+      split at h
+      · simp only [Option.some.injEq] at h; subst h; exact ht.1
+      · exact tame_lookup rest ht.2 k y h
+
+/-- what Python's one-level flattening sees of a well-behaved node: as many entries as children -/
+theorem oneLevelCustom_tame (reg : Reg) (x : PyObj) (md : Option Key) (xs : List PyObj)
+    (h : customParts x = (md, .ok, xs)) :
+    ∃ es, es.length = xs.length ∧ oneLevelCustom reg x = .ok (xs.length, md, es) := by
+  unfold oneLevelCustom customOut
+  rw [h]
+  simp only [customOutOf]
+  have hm : reg.mode = .two ∨ reg.mode = .none3 ∨ reg.mode = .named ∨ reg.mode = .shifted := by
+    cases reg.mode <;> simp
+  rcases hm with hm | hm | hm | hm <;> simp [hm, entriesFor, namedEntries, shiftedEntries, intEntries]
+
+theorem customOut_tame (reg : Reg) (x : PyObj) (md : Option Key) (xs : List PyObj)
+    (h : customParts x = (md, .ok, xs)) :
+    ((customOut reg x).numOut != 2 && (customOut reg x).numOut != 3) = false ∧
+      (customOut reg x).children = some xs ∧ (customOut reg x).md = md := by
+  unfold customOut
+  rw [h]
+  simp only [customOutOf]
+  have hm : reg.mode = .two ∨ reg.mode = .none3 ∨ reg.mode = .named ∨ reg.mode = .shifted := by
+    cases reg.mode <;> simp
+  rcases hm with hm | hm | hm | hm <;> simp [hm]
+
+
+theorem pe_list' (cfg : Cfg) (s : Bool) (xs : List PyObj)
+    (ih : ∀ x ∈ xs, ∀ (path : List Key) (t : PyObj), t.tame = true →
+      (prefixErrorsGo cfg s path x t = .ok [] ↔ isOk (STree.upTo cfg.reg cfg.noneIsLeaf cfg.ns (shapeOf cfg s x) t))) :
+    ∀ (path es : List Key) (ys : List PyObj), PyObj.tameList ys = true → es.length = xs.length → ys.length = xs.length →
+      (seqErrs (prefixErrorsList cfg s path es xs ys) = .ok [] ↔
+        isOk (STree.upToL cfg.reg cfg.noneIsLeaf cfg.ns (shapeOfList cfg s xs) ys)) := by
+  induction xs with
+  | nil =>
+    intro path es ys _ he hy
+    have : ys = [] := List.length_eq_zero_iff.mp hy
+    subst this
+    simp [prefixErrorsList, seqErrs, shapeOfList, STree.upToL, isOk]
+  | cons x xs ihx =>
+    intro path es ys hty he hy
+    cases es with
+    | nil => simp at he
+    | cons e es =>
+      cases ys with
+      | nil => simp at hy
+      | cons y ys =>
+        simp only [List.length_cons, Nat.add_right_cancel_iff] at he hy
+        simp only [PyObj.tameList, Bool.and_eq_true] at hty
+        have h1 := ih x (by simp) (path ++ [e]) y hty.1
+        have h2 := ihx (fun x' hx' => ih x' (by simp [hx'])) path es ys hty.2 he hy
+        rw [seqErrs_nil] at h2
+        simp only [prefixErrorsList, shapeOfList, upToL_cons_ok, seqErrs_nil, List.mem_cons, forall_eq_or_imp,
+          h1, h2]
+
+theorem pe_dict' (cfg : Cfg) (s od : Bool) (path : List Key) (kvs kvt : List (Key × PyObj))
+    (hkt : PyObj.tameKVs kvt = true)
+    (ih : ∀ q ∈ kvs, ∀ (path : List Key) (t : PyObj), t.tame = true →
+      (prefixErrorsGo cfg s path q.2 t = .ok [] ↔
+        isOk (STree.upTo cfg.reg cfg.noneIsLeaf cfg.ns (shapeOf cfg s q.2) t))) :
+    ((if (!keySetEq ((dictOrder od s kvs).map (·.1)) (kvt.map (·.1))) = true then Except.ok [(PErr.keys, path)]
+      else seqErrs ((dictOrder od s (prefixErrorsKVs cfg s path kvs kvt)).map (·.2))) = .ok [] ↔
+     isOk (if (!keySetEq ((dictOrder od s (shapeOfKVs cfg s kvs)).map (·.1)) (kvt.map (·.1))) = true
+        then (Except.error Err.value : Except Err (List PyObj))
+        else match ((dictOrder od s (shapeOfKVs cfg s kvs)).map (·.1)).mapM (fun k => lookupKey k kvt) with
+          | Option.none => .error .key
+          | some xs => STree.upToL cfg.reg cfg.noneIsLeaf cfg.ns ((dictOrder od s (shapeOfKVs cfg s kvs)).map (·.2)) xs)) := by
+  have hitems : dictOrder od s (shapeOfKVs cfg s kvs) = (dictOrder od s kvs).map fun q => (q.1, shapeOf cfg s q.2) := by
+    rw [shapeOfKVs_eq, dictOrder_mapVals]
+  have hk : (dictOrder od s (shapeOfKVs cfg s kvs)).map (·.1) = (dictOrder od s kvs).map (·.1) := by
+    rw [hitems, List.map_map]; rfl
+  have hc : (dictOrder od s (shapeOfKVs cfg s kvs)).map (·.2) = (dictOrder od s kvs).map fun q => shapeOf cfg s q.2 := by
+    rw [hitems, List.map_map]; rfl
+  rw [hk, hc]
+  by_cases hks : keySetEq ((dictOrder od s kvs).map (·.1)) (kvt.map (·.1)) = true
+  · simp only [hks, Bool.not_true, Bool.false_eq_true, if_false]
+    have hg := dictOrder_map od s (fun (q : Key × PyObj) => (q.1, (match lookupKey q.1 kvt with
+        | Option.none => (Except.error Err.key : Except Err PErrs)
+        | some y => prefixErrorsGo cfg s (path ++ [q.1]) q.2 y))) (fun _ => rfl) kvs
+    rw [upTo_dict_side cfg s kvt (dictOrder od s kvs), seqErrs_nil, prefixErrorsKVs_eq, hg, List.map_map]
+    simp only [List.mem_map, forall_exists_index, and_imp, forall_apply_eq_imp_iff₂, Function.comp_apply]
+    constructor
+    · intro h q hq
+      have hq' : q ∈ kvs := (dictOrder_perm od s kvs).subset hq
+      have := h q hq
+      cases hl : lookupKey q.1 kvt with
+      | none => simp [hl] at this
+      | some y =>
+        simp only [hl] at this
+        exact ⟨y, rfl, (ih q hq' _ y (tame_lookup kvt hkt _ y hl)).1 this⟩
+    · intro h q hq
+      have hq' : q ∈ kvs := (dictOrder_perm od s kvs).subset hq
+      obtain ⟨y, hl, hy⟩ := h q hq
+      simp only [hl]
+      exact (ih q hq' _ y (tame_lookup kvt hkt _ y hl)).2 hy
+  · simp only [Bool.not_eq_true] at hks
+    simp [hks, isOk]
+
+theorem pe_custom (cfg : Cfg) (s : Bool) (path : List Key) (reg : Reg) (p t : PyObj) (mdp : Option Key)
+    (xs : List PyObj) (ents : Option (List Key))
+    (hpp : customParts p = (mdp, .ok, xs)) (hstd : p.pyType.isStdDict = false)
+    (hty : p.pyType = t.pyType ↔ lookupForObject cfg.reg cfg.ns t = some reg)
+    (htame : p.pyType = t.pyType → ∃ mdt ys, customParts t = (mdt, .ok, ys) ∧ t.seqKids = some ys ∧
+      PyObj.tameList ys = true)
+    (hl : ∀ (es : List Key) (ys : List PyObj), PyObj.tameList ys = true → es.length = xs.length → ys.length = xs.length →
+      (seqErrs (prefixErrorsList cfg s path es xs ys) = .ok [] ↔
+        isOk (STree.upToL cfg.reg cfg.noneIsLeaf cfg.ns (shapeOfList cfg s xs) ys))) :
+    ((if (p.pyType != t.pyType && !(p.pyType.isStdDict && t.pyType.isStdDict)) = true then
+        (Except.ok [(PErr.types, path)] : Except Err PErrs)
+      else
+        match oneLevelCustom reg p with
+        | Except.error e => Except.error e
+        | Except.ok (np, mdp', ep) =>
+          match oneLevelCustom reg t with
+          | Except.error e => Except.error e
+          | Except.ok (nt, mdt, _) =>
+            if (np != nt) = true then Except.ok [(PErr.arity, path)]
+            else
+              if (mdp' != mdt) = true then Except.ok [(PErr.metadata, path)]
+              else seqErrs (prefixErrorsList cfg s path ep xs (t.seqKids.getD []))) = .ok [] ↔
+      isOk (STree.upTo cfg.reg cfg.noneIsLeaf cfg.ns
+        (STree.node ⟨.custom, .md mdp, ents, some reg, Option.none⟩ (shapeOfList cfg s xs)) t)) := by
+  simp only [hstd, Bool.false_and, Bool.not_false, Bool.and_true]
+  by_cases heq : p.pyType = t.pyType
+  · obtain ⟨mdt, ys, hpt, hkids, htl⟩ := htame heq
+    obtain ⟨ep, hep, h1⟩ := oneLevelCustom_tame reg p mdp xs hpp
+    obtain ⟨et, _, h2⟩ := oneLevelCustom_tame reg t mdt ys hpt
+    obtain ⟨c1, c2, c3⟩ := customOut_tame reg t mdt ys hpt
+    have hlo := hty.1 heq
+    simp only [heq, bne_self_eq_false, Bool.false_eq_true, if_false, h1, h2, hkids, Option.getD_some]
+    simp only [STree.upTo, hlo, bne_self_eq_false, Bool.false_eq_true, if_false, c1, c2, c3, shapeOfList_length]
+    by_cases hlen : ys.length = xs.length
+    · by_cases hmd : mdp = mdt
+      · subst hmd
+        simp only [hlen, bne_self_eq_false, Bool.false_eq_true, if_false]
+        exact hl ep ys htl hep hlen
+      · have hm1 : (mdp != mdt) = true := by simp [hmd]
+        have hm2 : (NodeData.md mdp != NodeData.md mdt) = true := by simp [hmd]
+        simp [hlen, hm1, hm2, isOk]
+    · have hlen' : ¬ xs.length = ys.length := fun h => hlen h.symm
+      have hn : (xs.length != ys.length) = true := by simp [hlen']
+      simp only [hn, if_true]
+      by_cases hmd : mdp = mdt
+      · subst hmd; simp [hlen, isOk]
+      · have hm2 : (NodeData.md mdp != NodeData.md mdt) = true := by simp [hmd]
+        simp [hm2, isOk]
+  · have hne : (p.pyType != t.pyType) = true := by simp [heq]
+    have hlo : lookupForObject cfg.reg cfg.ns t ≠ some reg := fun h => heq (hty.2 h)
+    have hlo' : (lookupForObject cfg.reg cfg.ns t != some reg) = true := by simp [hlo]
+    simp [hne, STree.upTo, hlo', isOk]
+
+theorem hty_any (cfg : Cfg) (hreg : cfg.reg.OK) (ck : Nat) (cls : TypeId) (reg : Reg)
+    (hlk : cfg.reg.lookup cfg.ns ck cls = some reg) (pt : PyType)
+    (hpt : pt = (if ck = 0 then PyType.user cls else if ck = 1 then PyType.nt cls else PyType.ss cls))
+    (hck : ck = 0 ∨ ck = 1 ∨ ck = 2) (t : PyObj) :
+    pt = t.pyType ↔ lookupForObject cfg.reg cfg.ns t = some reg := by
+  obtain ⟨hc1, hc2⟩ := hreg _ _ _ _ hlk
+  subst hpt
+  cases t
+  case user cls' md' q' ys =>
+    simp only [PyObj.pyType, lookupForObject]
+    constructor
+    · intro h
+      rcases hck with h0 | h0 | h0 <;> subst h0 <;> simp at h
+      subst h; exact hlk
+    · intro h
+      obtain ⟨d1, d2⟩ := hreg _ _ _ _ h
+      have : ck = 0 := by rw [← hc2, d2]
+      subst this
+      simp only [if_true, PyType.user.injEq]
+      rw [← hc1, d1]
+  case ntuple cls' ys =>
+    simp only [PyObj.pyType, lookupForObject]
+    constructor
+    · intro h
+      rcases hck with h0 | h0 | h0 <;> subst h0 <;> simp at h
+      subst h; exact hlk
+    · intro h
+      obtain ⟨d1, d2⟩ := hreg _ _ _ _ h
+      have : ck = 1 := by rw [← hc2, d2]
+      subst this
+      first | (simp only [PyType.nt.injEq]; rw [← hc1, d1]; done) | (rw [← hc1, d1]; simp) | simp [← hc1, d1]
+  case sseq cls' ys =>
+    simp only [PyObj.pyType, lookupForObject]
+    constructor
+    · intro h
+      rcases hck with h0 | h0 | h0 <;> subst h0 <;> simp at h
+      subst h; exact hlk
+    · intro h
+      obtain ⟨d1, d2⟩ := hreg _ _ _ _ h
+      have : ck = 2 := by rw [← hc2, d2]
+      subst this
+      first | (rw [← hc1, d1]; done) | (rw [← hc1, d1]; simp) | simp [← hc1, d1]
+  all_goals
+    simp only [PyObj.pyType, lookupForObject]
+    rcases hck with h0 | h0 | h0 <;> subst h0 <;> first | (simp; done) | (intro h; simp at h) | (constructor <;> intro h <;> simp at h)
+
+theorem pe_full (cfg : Cfg) (s : Bool) (hp : cfg.pred = Option.none) (hreg : cfg.reg.OK) :
+    ∀ p : PyObj, p.tame = true → ∀ (path : List Key) (t : PyObj), t.tame = true →
+      (prefixErrorsGo cfg s path p t = .ok [] ↔ isOk (STree.upTo cfg.reg cfg.noneIsLeaf cfg.ns (shapeOf cfg s p) t))
+  | .leaf ty uid, _, path, t, _ => by
+      rw [prefixErrorsGo]
+      simp [evalPred_none' cfg hp, getKind, shapeOf, STree.upTo, isOk]
+  | .none, _, path, t, _ => by
+      rw [prefixErrorsGo]
+      by_cases hn : cfg.noneIsLeaf = true
+      · simp [evalPred_none' cfg hp, getKind, shapeOf, STree.upTo, isOk, hn]
+      · simp only [Bool.not_eq_true] at hn
+        simp only [evalPred_none' cfg hp, getKind, hn, shapeOf]
+        cases t <;>
+          simp [STree.upTo, isOk, plainInfo, PyObj.pyType, PyType.isStdDict, STree.upToL]
+  | .tuple xs, hf, path, t, htt => by
+      simp only [PyObj.tame] at hf
+      have hl := pe_list' cfg s xs (fun x hx => pe_full cfg s hp hreg x (tame_mem xs hf x hx))
+        path (intEntries xs.length)
+      rw [prefixErrorsGo]
+      simp only [evalPred_none' cfg hp, getKind, shapeOf]
+      cases t
+      all_goals simp only [PyObj.pyType, PyType.isStdDict, STree.upTo, plainInfo, PyObj.seqKids, Option.getD_some,
+        shapeOfList_length]
+      all_goals try (simp [isOk]; done)
+      simp only [PyObj.tame] at htt
+      simp only [show (Kind.tuple == Kind.leaf) = false from by decide,
+        show (PyType.tuple != PyType.tuple && !(false && false)) = false from by decide, Bool.false_eq_true, if_false]
+      exact seq_close path xs _ _ _ (fun h => hl _ htt (intEntries_len _) h)
+  | .list xs, hf, path, t, htt => by
+      simp only [PyObj.tame] at hf
+      have hl := pe_list' cfg s xs (fun x hx => pe_full cfg s hp hreg x (tame_mem xs hf x hx))
+        path (intEntries xs.length)
+      rw [prefixErrorsGo]
+      simp only [evalPred_none' cfg hp, getKind, shapeOf]
+      cases t
+      all_goals simp only [PyObj.pyType, PyType.isStdDict, STree.upTo, plainInfo, PyObj.seqKids, Option.getD_some,
+        shapeOfList_length]
+      all_goals try (simp [isOk]; done)
+      simp only [PyObj.tame] at htt
+      simp only [show (Kind.list == Kind.leaf) = false from by decide,
+        show (PyType.list != PyType.list && !(false && false)) = false from by decide, Bool.false_eq_true, if_false]
+      exact seq_close path xs _ _ _ (fun h => hl _ htt (intEntries_len _) h)
+  | .deque m xs, hf, path, t, htt => by
+      simp only [PyObj.tame] at hf
+      have hl := pe_list' cfg s xs (fun x hx => pe_full cfg s hp hreg x (tame_mem xs hf x hx))
+        path (intEntries xs.length)
+      rw [prefixErrorsGo]
+      simp only [evalPred_none' cfg hp, getKind, shapeOf]
+      cases t
+      all_goals simp only [PyObj.pyType, PyType.isStdDict, STree.upTo, plainInfo, PyObj.seqKids, Option.getD_some,
+        shapeOfList_length]
+      all_goals try (simp [isOk]; done)
+      simp only [PyObj.tame] at htt
+      simp only [show (Kind.deque == Kind.leaf) = false from by decide,
+        show (PyType.deque != PyType.deque && !(false && false)) = false from by decide, Bool.false_eq_true, if_false]
+      exact seq_close path xs _ _ _ (fun h => hl _ htt (intEntries_len _) h)
+  | .ntuple cls xs, hf, path, t, htt => by
+      simp only [PyObj.tame] at hf
+      rw [prefixErrorsGo]
+      simp only [evalPred_none' cfg hp, getKind, shapeOf]
+      cases hlk : cfg.reg.lookup cfg.ns 1 cls with
+      | some reg =>
+        simp only []
+        have hty := hty_any cfg hreg 1 cls reg hlk (PyObj.ntuple cls xs).pyType (by simp [PyObj.pyType]) (by decide) t
+        have htame : (PyObj.ntuple cls xs).pyType = t.pyType → ∃ mdt ys, customParts t = (mdt, .ok, ys) ∧
+            t.seqKids = some ys ∧ PyObj.tameList ys = true := by
+          intro h
+          cases t <;> simp only [PyObj.pyType, reduceCtorEq] at h
+          simp only [PyObj.tame, Bool.and_eq_true, beq_iff_eq] at htt
+          first
+            | (obtain ⟨hq', htl⟩ := htt; subst hq'; exact ⟨_, _, rfl, rfl, htl⟩)
+            | exact ⟨_, _, rfl, rfl, htt⟩
+        simp only [show (Kind.custom == Kind.leaf) = false from by decide, Bool.false_eq_true, if_false]
+        exact pe_custom cfg s path reg (PyObj.ntuple cls xs) t Option.none xs _ rfl rfl hty htame
+          (fun es ys hys he hy => pe_list' cfg s xs (fun x hx => pe_full cfg s hp hreg x (tame_mem xs hf x hx))
+            path es ys hys he hy)
+      | none =>
+        have hl := pe_list' cfg s xs (fun x hx => pe_full cfg s hp hreg x (tame_mem xs hf x hx))
+          path (intEntries xs.length)
+        simp only []
+        cases t
+        all_goals simp only [PyObj.pyType, PyType.isStdDict, STree.upTo, plainInfo, PyObj.seqKids, Option.getD_some,
+          shapeOfList_length]
+        all_goals try (simp [isOk]; done)
+        rename_i cls' ys
+        simp only [PyObj.tame] at htt
+        by_cases hc : cls = cls'
+        · subst hc
+          simp only [show (Kind.namedtuple == Kind.leaf) = false from by decide, bne_self_eq_false, Bool.false_and,
+            Bool.false_eq_true, if_false]
+          exact seq_close path xs _ _ _ (fun h => hl _ htt (intEntries_len _) h)
+        · have h1 : (PyType.nt cls != PyType.nt cls' && !(false && false)) = true := by simp [hc]
+          have h2 : (NodeData.cls cls != NodeData.cls cls') = true := by simp [hc]
+          simp only [show (Kind.namedtuple == Kind.leaf) = false from by decide, h1, h2, Bool.false_eq_true, if_false, if_true]
+          simp [isOk]
+          try (split <;> simp)
+  | .sseq cls xs, hf, path, t, htt => by
+      simp only [PyObj.tame] at hf
+      rw [prefixErrorsGo]
+      simp only [evalPred_none' cfg hp, getKind, shapeOf]
+      cases hlk : cfg.reg.lookup cfg.ns 2 cls with
+      | some reg =>
+        simp only []
+        have hty := hty_any cfg hreg 2 cls reg hlk (PyObj.sseq cls xs).pyType (by simp [PyObj.pyType]) (by decide) t
+        have htame : (PyObj.sseq cls xs).pyType = t.pyType → ∃ mdt ys, customParts t = (mdt, .ok, ys) ∧
+            t.seqKids = some ys ∧ PyObj.tameList ys = true := by
+          intro h
+          cases t <;> simp only [PyObj.pyType, reduceCtorEq] at h
+          simp only [PyObj.tame, Bool.and_eq_true, beq_iff_eq] at htt
+          first
+            | (obtain ⟨hq', htl⟩ := htt; subst hq'; exact ⟨_, _, rfl, rfl, htl⟩)
+            | exact ⟨_, _, rfl, rfl, htt⟩
+        simp only [show (Kind.custom == Kind.leaf) = false from by decide, Bool.false_eq_true, if_false]
+        exact pe_custom cfg s path reg (PyObj.sseq cls xs) t Option.none xs _ rfl rfl hty htame
+          (fun es ys hys he hy => pe_list' cfg s xs (fun x hx => pe_full cfg s hp hreg x (tame_mem xs hf x hx))
+            path es ys hys he hy)
+      | none =>
+        have hl := pe_list' cfg s xs (fun x hx => pe_full cfg s hp hreg x (tame_mem xs hf x hx))
+          path (intEntries xs.length)
+        simp only []
+        cases t
+        all_goals simp only [PyObj.pyType, PyType.isStdDict, STree.upTo, plainInfo, PyObj.seqKids, Option.getD_some,
+          shapeOfList_length]
+        all_goals try (simp [isOk]; done)
+        rename_i cls' ys
+        simp only [PyObj.tame] at htt
+        by_cases hc : cls = cls'
+        · subst hc
+          simp only [show (Kind.structseq == Kind.leaf) = false from by decide, bne_self_eq_false, Bool.false_and,
+            Bool.false_eq_true, if_false]
+          exact seq_close path xs _ _ _ (fun h => hl _ htt (intEntries_len _) h)
+        · have h1 : (PyType.ss cls != PyType.ss cls' && !(false && false)) = true := by simp [hc]
+          have h2 : (NodeData.cls cls != NodeData.cls cls') = true := by simp [hc]
+          simp only [show (Kind.structseq == Kind.leaf) = false from by decide, h1, h2, Bool.false_eq_true, if_false, if_true]
+          simp [isOk]
+          try (split <;> simp)
+  | .user cls md q xs, hf, path, t, htt => by
+      simp only [PyObj.tame, Bool.and_eq_true, beq_iff_eq] at hf
+      obtain ⟨hq, hf⟩ := hf
+      subst hq
+      rw [prefixErrorsGo]
+      simp only [evalPred_none' cfg hp, getKind, shapeOf]
+      cases hlk : cfg.reg.lookup cfg.ns 0 cls with
+      | none => simp [STree.upTo, isOk]
+      | some reg =>
+        simp only []
+        have hty := hty_any cfg hreg 0 cls reg hlk (PyObj.user cls md Quirk.ok xs).pyType (by simp [PyObj.pyType]) (by decide) t
+        have htame : (PyObj.user cls md Quirk.ok xs).pyType = t.pyType → ∃ mdt ys, customParts t = (mdt, .ok, ys) ∧
+            t.seqKids = some ys ∧ PyObj.tameList ys = true := by
+          intro h
+          cases t <;> simp only [PyObj.pyType, reduceCtorEq] at h
+          simp only [PyObj.tame, Bool.and_eq_true, beq_iff_eq] at htt
+          first
+            | (obtain ⟨hq', htl⟩ := htt; subst hq'; exact ⟨_, _, rfl, rfl, htl⟩)
+            | exact ⟨_, _, rfl, rfl, htt⟩
+        simp only [show (Kind.custom == Kind.leaf) = false from by decide, Bool.false_eq_true, if_false]
+        exact pe_custom cfg s path reg (PyObj.user cls md Quirk.ok xs) t md xs _ rfl rfl hty htame
+          (fun es ys hys he hy => pe_list' cfg s xs (fun x hx => pe_full cfg s hp hreg x (tame_mem xs hf x hx))
+            path es ys hys he hy)
+  | .dict kvs, hf, path, t, htt => by
+      simp only [PyObj.tame] at hf
+      have hd := fun kvt hkt => pe_dict' cfg s false path kvs kvt hkt
+        (fun q hq => pe_full cfg s hp hreg q.2 (tame_memKVs kvs hf q hq))
+      rw [prefixErrorsGo]
+      simp only [evalPred_none' cfg hp, getKind, shapeOf]
+      cases t
+      all_goals simp only [PyObj.pyType, PyType.isStdDict, STree.upTo, plainInfo, dictItems?, Option.getD_some,
+        NInfo.keys]
+      all_goals try (simp [isOk]; done)
+      all_goals
+        simp only [PyObj.tame] at htt
+        simp only [show (Kind.dict == Kind.leaf) = false from by decide, Bool.and_self, Bool.not_true, Bool.and_false,
+          Bool.false_eq_true, if_false]
+        first
+          | exact hd _ htt
+          | (have h0 := hd _ htt
+             simp only [dictOrder, Bool.not_true, Bool.false_and, Bool.false_eq_true, if_false] at h0 ⊢
+             exact h0)
+  | .odict kvs, hf, path, t, htt => by
+      simp only [PyObj.tame] at hf
+      have hd := fun kvt hkt => pe_dict' cfg s true path kvs kvt hkt
+        (fun q hq => pe_full cfg s hp hreg q.2 (tame_memKVs kvs hf q hq))
+      rw [prefixErrorsGo]
+      simp only [evalPred_none' cfg hp, getKind, shapeOf]
+      cases t
+      all_goals simp only [PyObj.pyType, PyType.isStdDict, STree.upTo, plainInfo, dictItems?, Option.getD_some,
+        NInfo.keys]
+      all_goals try (simp [isOk]; done)
+      all_goals
+        simp only [PyObj.tame] at htt
+        simp only [show (Kind.ordereddict == Kind.leaf) = false from by decide, Bool.and_self, Bool.not_true, Bool.and_false,
+          Bool.false_eq_true, if_false]
+        first
+          | exact hd _ htt
+          | (have h0 := hd _ htt
+             simp only [dictOrder, Bool.not_true, Bool.false_and, Bool.false_eq_true, if_false] at h0 ⊢
+             exact h0)
+  | .ddict f kvs, hf, path, t, htt => by
+      simp only [PyObj.tame] at hf
+      have hd := fun kvt hkt => pe_dict' cfg s false path kvs kvt hkt
+        (fun q hq => pe_full cfg s hp hreg q.2 (tame_memKVs kvs hf q hq))
+      rw [prefixErrorsGo]
+      simp only [evalPred_none' cfg hp, getKind, shapeOf]
+      cases t
+      all_goals simp only [PyObj.pyType, PyType.isStdDict, STree.upTo, plainInfo, dictItems?, Option.getD_some,
+        NInfo.keys]
+      all_goals try (simp [isOk]; done)
+      all_goals
+        simp only [PyObj.tame] at htt
+        simp only [show (Kind.defaultdict == Kind.leaf) = false from by decide, Bool.and_self, Bool.not_true, Bool.and_false,
+          Bool.false_eq_true, if_false]
+        first
+          | exact hd _ htt
+          | (have h0 := hd _ htt
              simp only [dictOrder, Bool.not_true, Bool.false_and, Bool.false_eq_true, if_false] at h0 ⊢
              exact h0)
 termination_by p => sizeOf p
